@@ -1,5 +1,6 @@
 import Orx.IW.Outs
 import Orx.IW.Completed
+import Orx.IW.Progress
 /-! # C18 Panic containment: a panicking pull does not hang or corrupt others -/
 namespace Orx.Props.C18
 open Orx Orx.IW
@@ -36,15 +37,34 @@ already published: a thread that is between pulls holds no ticket, so it blocks 
 theorem panic_outside_cs_holds_nothing (pc : Pc) (h : pc.quiet = true) (hp : ∀ r b, pc ≠ .pre r b) : pc.ticket = none := by
   cases pc <;> simp [Pc.quiet, Pc.ticket] at *
 
+/-- **No hang after a panic (all schedules).** Every reachable configuration — every fused wrapped iterator that
+may panic at any call, all programs, every interleaving — satisfies: if some thread still has work, some
+working thread is not waiting. A thread that unwinds out of `next()` leaves `completed` set behind (the unwind
+guard, `fix:` commit for D13), so every waiter's next check of `completed` ends its wait, and every later pull
+reports the end. -/
+theorem panic_no_hang (s : Script) (hf : Fused s) (ps : Nat → List Req) (hok : ∀ t, ∀ r ∈ ps t, ReqOk r)
+    (σ : List Nat) (hW : (run s σ (init ps)).R < W) (t0 : Nat) (hb : Busy (run s σ (init ps)) t0) :
+    ∃ t, Busy (run s σ (init ps)) t ∧ ¬ Spinning (run s σ (init ps)) t := by
+  obtain ⟨hi, hc, hd⟩ := cover_run hf σ (inv_init s ps hok) (cover_init ps) (by intro t b n h; simp [init] at h) hW
+  exact deadlock_free hi hc hd t0 hb
+
+/-- once the guard has stored `completed`, nobody spins any more -/
+theorem after_unwind_nobody_spins (c : Cfg) (hC : c.C = true) (t : Nat) : ¬ Spinning c t := by
+  rintro ⟨h, _⟩; rw [hC] at h; exact absurd h (by simp)
+
+/-- the unwinding thread stores `completed` with its next step -/
+theorem unwind_sets_completed (s : Script) (t : Nat) (c : Cfg) (b n : Nat) (h : (c.th t).pc = .unw b n) :
+    (step s t c).C = true ∧ ((step s t c).th t).pc = .dead b n := by
+  unfold step; simp [h, setTh]
+
 def twoNext : Nat → List Req := fun t => if t < 2 then [.single false, .single false] else []
 
-/-- **Finding D13 (open)**: the wrapped iterator panics inside thread 0's second pull; thread 1's pull
-holds the next ticket and spins forever: its two spin steps (`yielded.load`, `completed.load`) return to the same
-state, `completed` is never set, and the dead thread never publishes. -/
-theorem C18_finding_hang_after_iter_panic :
-    let c := run panicAt1 [0,0,0,0,0,0,0, 0,0,0,0,0,0, 1,1,1] (init twoNext)
-    (c.th 0).pc = .dead 1 1 ∧ (c.th 1).pc = .wait (.single false) 2 ∧ c.Y = 1 ∧ c.C = false ∧
-    ((step panicAt1 1 (step panicAt1 1 c)).th 1).pc = (c.th 1).pc ∧ (step panicAt1 1 (step panicAt1 1 c)).Y = c.Y ∧
-    (step panicAt1 1 (step panicAt1 1 c)).C = c.C := by decide
+/-- the schedule on which the unrepaired code hung (finding D13, fixed): thread 0 panics inside its second pull
+while thread 1 holds the next ticket. Now thread 0's guard sets `completed`, and thread 1's pull ends: it reports
+the end and so does its next pull. -/
+theorem C18_fixed_witness_no_hang :
+    let c := run panicAt1 [0,0,0,0,0,0,0, 0,0,0,0,0,0,0, 1,1,1, 1,1,1,1] (init twoNext)
+    (c.th 0).pc = .dead 1 1 ∧ c.C = true ∧ (c.th 1).pc = .idle ∧ (c.th 1).todo = [] ∧
+    (c.th 1).outs = [.fin, .fin] := by decide
 
 end Orx.Props.C18
